@@ -95,7 +95,9 @@ func (s *Service) proxyToSingleEndpoint(ctx context.Context, w http.ResponseWrit
 	stats.BackendResponseMs = time.Since(backendStart).Milliseconds()
 
 	if err != nil {
-		if cb != nil {
+		// a client that went away says nothing about the endpoint: only failures of the
+		// backend count towards its circuit
+		if cb != nil && !errors.Is(err, context.Canceled) {
 			cb.RecordFailure()
 		}
 		// Don't log as error if it's a connection failure - the retry handler will handle it
